@@ -61,7 +61,7 @@ def run(t):
                        "after PE and CAB containers. evaluations = verifier runs on mutated artifacts")
     run.assumptions += ["regions are stated positively and conservatively: CMS = signature value + signed attributes + signer certificate TBS; "
                         "PGP = trailing signature MPI; XML = attribute values outside comments/namespace declarations, SignatureValue, DigestValue",
-                        "msi streams, pkg heap, semantic mutations (member replacement, signature grafting) are not swept in this revision"]
+                        "msi streams and pkg heap are not swept; semantic mutations: PE signature grafting and JAR manifest/.SF regeneration only"]
     return run.finish()
 
 
